@@ -4,7 +4,7 @@
    methods, all fault sets (EINTR at any wait / epoll_ctl, missing system calls), any wait limit. *)
 From Coq Require Import List ZArith Bool Lia.
 From Ivv Require Import Core.Kernel Core.CoreTypes Core.CoreFd Core.CoreModel Core.Monitors Core.GuardMon Core.CoreSpec
-  Core.CoreInv Core.CoreRel Core.CorePhase2Time Core.CoreExamples.
+  Core.CoreInv Core.CoreRel Core.CorePhase2Time Core.CorePhase2Guard Core.CoreExamples.
 Import ListNotations.
 Local Open Scope Z_scope.
 
@@ -18,10 +18,13 @@ Theorem C06_tasks :
 Proof. exact core_mon_C06. Qed.
 Print Assumptions C06_tasks.
 
-(* STATUS: the companion statement "a task re-registered from its own handler is registered again, i.e. the scripted
-   API calls that the documented state allows are all executed" (guard monitor clauses 1101/1102,
-   `no_code [1101; 1102] (gmon_fails sc (run_scenario sc))`) is checked on every model and implementation trace by the
-   extracted guard monitor; its proof is in progress. *)
+(* the scripted API calls that the documented state allows are all executed and no other: in particular a task
+   re-registered from its own handler IS registered again (it was unregistered on entry), a task registered by another
+   task's handler is registered for the next iteration (guard monitor clauses 1101/1102) *)
+Theorem C06_calls_allowed_are_made :
+  forall sc, wf_scenario sc -> no_code [1101; 1102] (gmon_fails sc (run_scenario sc)).
+Proof. exact core_gmon_guards. Qed.
+Print Assumptions C06_calls_allowed_are_made.
 
 (* non-vacuity: a well-formed run on every poll method in which a task registered before iv_main runs once *)
 Example C06_nonvacuous :
